@@ -23,10 +23,17 @@ structure Inst where
   zombie : Bool
   deriving DecidableEq, Repr
 
+/-- the two errnos CPython turns into `PermissionError` -/
+inductive Errno | eperm | eacces
+  deriving DecidableEq, Repr
+
 structure Kernel where
   procs : List Inst
   clock : Nat          -- ticks since boot; stamps the next spawned process
   btime : Nat          -- published boot time (`btime` line of /proc/stat); moves with the wall clock
+  denied : List (Nat × Errno)   -- INPUT: PIDs on which the kernel refuses kill / setpriority / ioprio_set /
+                                -- sched_setaffinity / prlimit, with the errno it answers (first entry wins)
+  hidden : List Nat    -- INPUT: PIDs whose `/proc/pid/stat` cannot be opened (EACCES/EPERM: hidepid mounts, LSMs)
   deriving Repr
 
 /-- kernel-side events -/
@@ -36,6 +43,8 @@ inductive KEv
   | reap (pid : Nat)         -- the entry leaves the table (zombie reaped, or exit of an auto-reaped process)
   | tick (n : Nat)           -- time passes
   | setBtime (b : Nat)       -- system clock step: the published boot time changes
+  | perm (pid : Nat) (e : Option Errno)   -- from now on the kernel refuses effects on `pid` with errno `e` / allows them
+  | hide (pid : Nat) (on : Bool)          -- `/proc/pid/stat` becomes unreadable / readable again
   deriving DecidableEq, Repr
 
 def Kernel.find (k : Kernel) (pid : Nat) : Option Inst := k.procs.find? (·.pid == pid)
@@ -52,6 +61,16 @@ def Kernel.apply (k : Kernel) : KEv → Kernel
   | .reap pid => { k with procs := k.procs.filter fun x => !(x.pid == pid) }
   | .tick n => { k with clock := k.clock + n }
   | .setBtime b => { k with btime := b }
+  | .perm pid none => { k with denied := k.denied.filter fun x => !(x.1 == pid) }
+  | .perm pid (some e) => { k with denied := (pid, e) :: k.denied }
+  | .hide pid true => { k with hidden := pid :: k.hidden }
+  | .hide pid false => { k with hidden := k.hidden.filter fun x => !(x == pid) }
+
+/-- what the kernel answers when asked to signal / alter `pid` (which exists): `none` = done -/
+def Kernel.refusal (k : Kernel) (pid : Nat) : Option Errno := k.denied.lookup pid
+
+/-- `open("/proc/pid/stat")` raises PermissionError -/
+def Kernel.isHidden (k : Kernel) (pid : Nat) : Bool := k.hidden.contains pid
 
 /-- facts re-derived from the source by the translator -/
 structure Cfg where
@@ -79,7 +98,9 @@ structure Cfg where
 /-- a `psutil.Process` object -/
 structure PObj where
   pid : Nat
-  ident : Nat             -- 2nd component of `_ident`, scaled by CLOCK_TICKS: `start + clk·boot` (exact)
+  ident : Option Nat      -- 2nd component of `_ident`, scaled by CLOCK_TICKS: `start + clk·boot` (exact);
+                          -- `none` = `(pid, None)`: `_init` got AccessDenied from `create_time()` and went on
+  ctime : Option Nat      -- memoised `_create_time` (set by `_init` together with `_ident`, or by a later `create_time()`)
   gone : Bool
   reused : Bool
   ghost : Nat             -- SPEC ONLY: `start` of the incarnation that owned the PID when the object was built
@@ -105,6 +126,7 @@ structure Eff where
   pid : Int               -- PID handed to the OS
   arg : List Int          -- signal number / setter values handed to the OS
   owner : Option Nat      -- SPEC ONLY: `start` of the incarnation owning that PID at that instant
+  res : Option Errno      -- the kernel's answer: `none` = carried out, `some e` = refused (nothing happened to the process)
   deriving DecidableEq, Repr
 
 inductive SigMethod | send (sig : Nat) | suspend | resume | terminate | kill
@@ -126,10 +148,10 @@ inductive Call
   deriving DecidableEq, Repr
 
 /-- the status word of `Process.__str__` (the kernel's state letter is reduced to zombie / not zombie) -/
-inductive StatusWord | reusedTerminated | terminated | zombie | alive
+inductive StatusWord | reusedTerminated | terminated | zombie | alive | unknown
   deriving DecidableEq, Repr
 
-inductive Exc | noSuchProcess (pid : Int) | valueError | badCall
+inductive Exc | noSuchProcess (pid : Int) | accessDenied (pid : Int) | valueError | badCall
   deriving DecidableEq, Repr
 
 inductive Out
@@ -137,7 +159,7 @@ inductive Out
   | bool (b : Bool)
   | nat (n : Nat)
   | obj (i : Nat)
-  | ident (pid ct : Nat)       -- `hash()`: any function of the `_ident` tuple
+  | ident (pid : Nat) (ct : Option Nat)   -- `hash()`: any function of the `_ident` tuple
   | procs (l : List (Nat × Nat))   -- `list(process_iter())`: (pid, index of the yielded object), in yield order
   | status (w : StatusWord)
   | exc (e : Exc)
@@ -152,7 +174,7 @@ structure St where
   log : List Eff          -- newest first
   deriving Repr
 
-def St.init (btime : Nat) : St := ⟨⟨[], 0, btime⟩, ⟨none, [], [], []⟩, []⟩
+def St.init (btime : Nat) : St := ⟨⟨[], 0, btime, [], []⟩, ⟨none, [], [], []⟩, []⟩
 
 /-- `_pslinux.boot_time()`: read `btime`, write `BOOT_TIME`, return the live value -/
 def bootTimeCall (cfg : Cfg) (k : Kernel) (ps : Ps) : Ps × Nat :=
@@ -167,13 +189,17 @@ def bootForCreate (cfg : Cfg) (k : Kernel) (ps : Ps) : Ps × Nat :=
   else bootTimeCall cfg k ps
 
 /-- `Process(pid)`: the new object (not yet stored), or `none` = NoSuchProcess (no `/proc/pid/stat`;
-    `_parse_stat_file` fails before the boot time is looked at) -/
+    `_parse_stat_file` fails before the boot time is looked at).  When the file exists but cannot be
+    opened, `create_time()` raises AccessDenied, `_init` catches it (`pass`) and the object keeps the
+    provisional `_ident = (pid, None)`; `BOOT_TIME` is not looked at. -/
 def mkObj (cfg : Cfg) (k : Kernel) (ps : Ps) (pid : Nat) : Ps × Option PObj :=
   match k.find pid with
   | none => (ps, none)
   | some x =>
-    let r := bootForCreate cfg k ps
-    (r.1, some ⟨pid, x.start + cfg.clk * r.2, false, false, x.start⟩)
+    if k.isHidden pid then (ps, some ⟨pid, none, none, false, false, x.start⟩)
+    else
+      let r := bootForCreate cfg k ps
+      (r.1, some ⟨pid, some (x.start + cfg.clk * r.2), some (x.start + cfg.clk * r.2), false, false, x.start⟩)
 
 def setObj (ps : Ps) (i : Nat) (o : PObj) : Ps := { ps with objs := ps.objs.set i o }
 
@@ -182,7 +208,7 @@ def setObj (ps : Ps) (i : Nat) (o : PObj) : Ps := { ps with objs := ps.objs.set 
 structure MRes where
   ps : Ps
   o : PObj
-  eff : Option (EffKind × Int × List Int × Option Nat)     -- kind, pid, args, (spec) owner
+  eff : Option (EffKind × Int × List Int × Option Nat × Option Errno)  -- kind, pid, args, (spec) owner, kernel's answer
   out : Out
 
 /-- `Process.is_running()` -/
@@ -222,6 +248,11 @@ def guardOf (cfg : Cfg) : SetKind → Bool
   | .rlimit => cfg.guardRlimit
   | .affinity => cfg.guardAffinity
 
+/-- what the caller sees after the OS entry point answered: `PermissionError` → AccessDenied(pid) -/
+def outOf (pid : Nat) : Option Errno → Out
+  | none => .unit
+  | some _ => .exc (.accessDenied pid)
+
 /-- `_send_signal(sig)` -/
 def signalM (cfg : Cfg) (k : Kernel) (ps : Ps) (o : PObj) (m : SigMethod) : MRes :=
   let g := guardedO cfg cfg.guardSignal k ps o
@@ -231,7 +262,8 @@ def signalM (cfg : Cfg) (k : Kernel) (ps : Ps) (o : PObj) (m : SigMethod) : MRes
     match k.find o.pid with
     | none =>    -- os.kill → ESRCH: `_gone = True`, NoSuchProcess
       ⟨g.1, { g.2.1 with gone := true }, none, .exc (.noSuchProcess o.pid)⟩
-    | some x => ⟨g.1, g.2.1, some (.kill, o.pid, [(sigOf cfg m : Int)], some x.start), .unit⟩
+    | some x =>  -- os.kill is called: carried out, or EPERM/EACCES → AccessDenied (no flag is set)
+      ⟨g.1, g.2.1, some (.kill, o.pid, [(sigOf cfg m : Int)], some x.start, k.refusal o.pid), outOf o.pid (k.refusal o.pid)⟩
 
 def insertSorted (a : Int) : List Int → List Int
   | [] => [a]
@@ -266,7 +298,8 @@ def setterM (cfg : Cfg) (k : Kernel) (ps : Ps) (o : PObj) (kind : SetKind) (args
     | some a =>
       match k.find o.pid with
       | none => ⟨g.1, g.2.1, none, .exc (.noSuchProcess o.pid)⟩      -- ESRCH → wrap_exceptions
-      | some x => ⟨g.1, g.2.1, some (.set kind, o.pid, a, some x.start), .unit⟩
+      | some x =>  -- the native call is made: carried out, or PermissionError → AccessDenied (wrap_exceptions)
+        ⟨g.1, g.2.1, some (.set kind, o.pid, a, some x.start, k.refusal o.pid), outOf o.pid (k.refusal o.pid)⟩
 
 /-- `ppid()`: guarded query (the value itself is C05's subject) -/
 def ppidM (cfg : Cfg) (k : Kernel) (ps : Ps) (o : PObj) : MRes :=
@@ -275,7 +308,21 @@ def ppidM (cfg : Cfg) (k : Kernel) (ps : Ps) (o : PObj) : MRes :=
   else
     match k.find o.pid with
     | none => ⟨g.1, g.2.1, none, .exc (.noSuchProcess o.pid)⟩
-    | some _ => ⟨g.1, g.2.1, none, .unit⟩
+    | some _ => ⟨g.1, g.2.1, none, if k.isHidden o.pid then .exc (.accessDenied o.pid) else .unit⟩
+
+/-- `create_time()`: the memoised `_create_time`, else `_proc.create_time()` (stat first, then
+    `BOOT_TIME or boot_time()`), memoised — `_ident` is NOT recomputed -/
+def createTimeM (cfg : Cfg) (k : Kernel) (ps : Ps) (o : PObj) : MRes :=
+  match o.ctime with
+  | some v => ⟨ps, o, none, .nat v⟩
+  | none =>
+    match k.find o.pid with
+    | none => ⟨ps, o, none, .exc (.noSuchProcess o.pid)⟩
+    | some x =>
+      if k.isHidden o.pid then ⟨ps, o, none, .exc (.accessDenied o.pid)⟩
+      else
+        let r := bootForCreate cfg k ps
+        ⟨r.1, { o with ctime := some (x.start + cfg.clk * r.2) }, none, .nat (x.start + cfg.clk * r.2)⟩
 
 def isRunningM (cfg : Cfg) (k : Kernel) (ps : Ps) (o : PObj) : MRes :=
   let r := isRunningO cfg k ps o
@@ -287,7 +334,7 @@ def method (cfg : Cfg) (k : Kernel) (ps : Ps) (o : PObj) : Call → Option MRes
   | .signal _ m => some (signalM cfg k ps o m)
   | .setter _ kind args => some (setterM cfg k ps o kind args)
   | .ppid _ => some (ppidM cfg k ps o)
-  | .createTime _ => some ⟨ps, o, none, .nat o.ident⟩         -- memoised `_create_time`
+  | .createTime _ => some (createTimeM cfg k ps o)
   | .hash _ => some ⟨ps, o, none, .ident o.pid o.ident⟩        -- memoised `hash(self._ident)`
   | _ => none
 
@@ -344,12 +391,13 @@ def statusWord (k : Kernel) (o : PObj) : StatusWord :=
   else
     match k.find o.pid with
     | none => .terminated
-    | some x => if x.zombie then .zombie else .alive
+    | some x => if k.isHidden o.pid then .unknown       -- name() → AccessDenied → `pass`: no status shown
+                else if x.zombie then .zombie else .alive
 
 /-- append the effect of a call made through object `i` (newest first) -/
-def pushEff (i : Nat) (log : List Eff) : Option (EffKind × Int × List Int × Option Nat) → List Eff
+def pushEff (i : Nat) (log : List Eff) : Option (EffKind × Int × List Int × Option Nat × Option Errno) → List Eff
   | none => log
-  | some (kind, pid, arg, owner) => ⟨kind, i, pid, arg, owner⟩ :: log
+  | some (kind, pid, arg, owner, res) => ⟨kind, i, pid, arg, owner, res⟩ :: log
 
 def step (cfg : Cfg) (s : St) : Ev → St × Out
   | .k e => ({ s with kern := s.kern.apply e }, .unit)
